@@ -46,6 +46,24 @@ def isOracleErr : R (List Char) → Bool
   | .error .oracle => true
   | _ => false
 
+/-! the derived `Debug` text of `Vec<Element>` (for texts without characters that Debug escapes) -/
+def dbgBool (b : Bool) : String := if b then "true" else "false"
+def dbgWidth : Width → String
+  | .star => "Star"
+  | .fixed n => "Fixed(" ++ toString n ++ ")"
+def dbgConv : Conv → String
+  | .dec => "Decimal" | .oct => "Octal" | .hex => "Hexadecimal" | .sci => "Scientific" | .flt => "Float"
+  | .shorter => "Shorter" | .chr => "Char" | .str => "String" | .pct => "Percent"
+def dbgElem : Elem → String
+  | .lit s => "String(\"" ++ String.ofList s ++ "\")"
+  | .code c =>
+    "Code(Code { mkey: \"" ++ String.ofList c.mkey ++ "\", cflags: CFlags { alt: " ++ dbgBool c.flags.alt
+      ++ ", zero: " ++ dbgBool c.flags.zero ++ ", left: " ++ dbgBool c.flags.left ++ ", blank: "
+      ++ dbgBool c.flags.blank ++ ", sign: " ++ dbgBool c.flags.sign ++ " }, width: " ++ dbgWidth c.width
+      ++ ", precision: " ++ (match c.prec with | none => "None" | some w => "Some(" ++ dbgWidth w ++ ")")
+      ++ ", convtype: " ++ dbgConv c.conv ++ ", caps: " ++ dbgBool c.caps ++ " })"
+def dbgElems (es : List Elem) : String := "[" ++ ", ".intercalate (es.map dbgElem) ++ "]"
+
 /-- `fmt` : {"fmt":[code points],"mode":"arr"|"single","vals":[V…]} → model / spec result.
     `fmt.parse` : {"fmt":[…]} → only the parse outcome (number of elements or error class). -/
 def handle (op : String) (j : Json) : Option Json :=
@@ -72,7 +90,8 @@ def handle (op : String) (j : Json) : Option Json :=
     | some f =>
       let sh (r : R (List Elem)) : Json := match r with
         | .ok es => obj [("ok", toJson es.length),
-            ("codes", toJson (es.filter (fun e => match e with | .code _ => true | _ => false)).length)]
+            ("codes", toJson (es.filter (fun e => match e with | .code _ => true | _ => false)).length),
+            ("dbg", .str (dbgElems es))]
         | .error e => obj [("err", .str e.name)]
       some (obj [("model", sh (Format.parseCodes (cps f))), ("spec", sh (FormatSpec.parseFmt (cps f)))])
   | _ => none
